@@ -94,28 +94,34 @@ def stop():
 
 
 def statement_lines(path):
-    """Statement-start lines of a source file that can fire a LINE event (docstrings, def/class headers excluded:
-    headers execute at import, which happens before the monitor starts)."""
+    """{statement-start line: (first, last) line of the statement's own text} for statements inside functions.  A
+    multi-line statement fires its LINE event on whichever of its lines holds the first instruction (a parenthesised
+    `if (` fires on the line of the condition), so a statement counts as reached when any line of its span was hit; for
+    compound statements the span is the header only.  Docstrings, def/class headers, imports, pass, global excluded;
+    module- and class-level statements ran at import time, before the monitor starts."""
     with open(path) as fh:
         tree = ast.parse(fh.read())
-    lines = set()
-    for node in ast.walk(tree):
-        if not isinstance(node, ast.stmt):
-            continue
-        if isinstance(node, (ast.FunctionDef, ast.AsyncFunctionDef, ast.ClassDef, ast.Import, ast.ImportFrom, ast.Global,
-                             ast.Nonlocal, ast.Pass)):
-            continue
-        if isinstance(node, ast.Expr) and isinstance(node.value, ast.Constant) and isinstance(node.value.value, str):
-            continue
-        lines.add(node.lineno)
-    # statements at module / class level ran at import time: only lines inside functions count
-    inside = set()
+    spans = {}
+
+    def visit_function(fn):
+        for sub in ast.walk(fn):
+            if sub is fn or not isinstance(sub, ast.stmt):
+                continue
+            if isinstance(sub, (ast.FunctionDef, ast.AsyncFunctionDef, ast.ClassDef, ast.Import, ast.ImportFrom, ast.Global,
+                                ast.Nonlocal, ast.Pass)):
+                continue
+            if isinstance(sub, ast.Expr) and isinstance(sub.value, ast.Constant) and isinstance(sub.value.value, str):
+                continue
+            lo = sub.lineno
+            hi = getattr(sub, "end_lineno", lo) or lo
+            body = getattr(sub, "body", None)
+            if isinstance(body, list) and body and isinstance(body[0], ast.stmt):
+                hi = max(lo, body[0].lineno - 1)
+            spans[lo] = (lo, hi)
     for node in ast.walk(tree):
         if isinstance(node, (ast.FunctionDef, ast.AsyncFunctionDef)):
-            for sub in ast.walk(node):
-                if isinstance(sub, ast.stmt) and sub is not node:
-                    inside.add(sub.lineno)
-    return lines & inside
+            visit_function(node)
+    return spans
 
 
 def _line_map(root, f):
@@ -173,7 +179,7 @@ def report(prop, merged):
         lo, hi = maps[f](lo, hi)
         want = sorted(x for x in st if lo <= x <= hi)
         got = merged.get(f, set())
-        missing = [x for x in want if x not in got]
+        missing = [x for x in want if not any(y in got for y in range(st[x][0], st[x][1] + 1))]
         out.append({"anchor": f"{f}:{lo0}-{hi0}" if hi < 10 ** 9 else f, "lines_now": [lo, hi] if hi < 10 ** 9 else None,
                     "name": label, "statement_lines": len(want),
                     "reached": len(want) - len(missing), "not_reached": missing[:60]})
